@@ -61,3 +61,33 @@ package marker
 //@   loop 1 invariant forall f model.Fingerprint :: (f in m.status) == (old(f in m.status) && !(exists i int :: 0 <= i && i <= rangeindex && alerts[i] == f))
 //@   loop 1 invariant forall f model.Fingerprint :: f in m.status ==> m.status[f] == old(m.status[f])
 //@   assigns m.status[*]
+
+// ---- C15: what the API reports about a muted group is what the time stages recorded: per (route, group key) the
+// names last recorded, "muted" exactly when that list is non-empty, nothing for a group never recorded or deleted.
+//@ spec gmOK(m *groupMarker) bool = m != nil && m.groups != nil && (forall k groupMarkerKey :: k in m.groups ==> m.groups[k] != nil)
+//@ func newGroupMarkerKey
+//@   props C15
+//@   pure
+//@   ensures result.routeID == routeID && result.groupKey == groupKey
+//@ func (*groupMarker).SetMuted
+//@   props C15
+//@   requires gmOK(m)
+//@   ensures [recorded] newGroupMarkerKey(routeID, groupKey) in m.groups && m.groups[newGroupMarkerKey(routeID, groupKey)].mutedBy == timeIntervalNames
+//@   ensures [others] forall k groupMarkerKey :: k != newGroupMarkerKey(routeID, groupKey) ==> (k in m.groups) == old(k in m.groups) && m.groups[k] == old(m.groups[k])
+//@   ensures [ok] gmOK(m)
+//@   ensures [monitor-lock-released] count("RWMutex).Lock") == 1 && count("RWMutex).Unlock") == 1
+//@   assigns m.groups[*], groupStatus.mutedBy
+//@ func (*groupMarker).Muted
+//@   props C15
+//@   requires gmOK(m)
+//@   ensures [unknown-group] !(newGroupMarkerKey(routeID, groupKey) in m.groups) ==> result0 == nil && !result1
+//@   ensures [recorded-names] newGroupMarkerKey(routeID, groupKey) in m.groups ==> result0 == m.groups[newGroupMarkerKey(routeID, groupKey)].mutedBy && result1 == (len(result0) > 0)
+//@   ensures [monitor-lock-released] count("RWMutex).RLock") == 1 && count("RWMutex).RUnlock") == 1
+//@   assigns nothing
+//@ func (*groupMarker).DeleteByGroupKey
+//@   props C15
+//@   requires gmOK(m)
+//@   ensures [deleted] !(newGroupMarkerKey(routeID, groupKey) in m.groups)
+//@   ensures [others] forall k groupMarkerKey :: k != newGroupMarkerKey(routeID, groupKey) ==> (k in m.groups) == old(k in m.groups) && m.groups[k] == old(m.groups[k])
+//@   ensures [monitor-lock-released] count("RWMutex).Lock") == 1 && count("RWMutex).Unlock") == 1
+//@   assigns m.groups[*]
